@@ -138,6 +138,7 @@ struct Generator::GeneratorImpl
 
     std::string generateZeroInitialisationCode(const AnalyserVariablePtr &variable) const;
     std::string generateInitialisationCode(const AnalyserVariablePtr &variable) const;
+    AnalyserVariablePtr initialisingExternalVariable(const AnalyserVariablePtr &variable) const;
     std::string generateVariableInitialisationCode(const AnalyserVariablePtr &variable,
                                                    std::vector<AnalyserVariablePtr> &handledVariables) const;
     std::string generateEquationCode(const AnalyserEquationPtr &equation,
